@@ -363,6 +363,22 @@ def _worker(args):
         runs.append((scn, calls))
         reqs.extend(c["req"] for c in calls)
     models = drv.batch(reqs)
+    # the statement trees read before and after every call, against the override/rollback model
+    tcalls = [(scn, k, c) for scn, calls in runs
+              for k, c in zip([i for i, o in enumerate(scn["ops"]) if o["op"] == "randomize"], calls)]
+    for (scn, k, c), tm in zip(tcalls, drv.batch([{"op": "t.rollback", "tree": c["tree"][0]} for _, _, c in tcalls])):
+        import treelib
+        cnt("tree_checks")
+        cnt("tree_expandable_statements", treelib.n_expandable(c["tree"][0]))
+        case = {"classes": scn["classes"], "root": scn["root"], "ops": scn["ops"][:k + 1]}
+        if "__err__" in tm:
+            res["corr"].append({"what": "override-model-error", "case": case, "model": tm["__err__"], "impl": None})
+        elif not tm["clean"]:
+            res["corr"].append({"what": "statement-tree-holds-overrides-between-calls (C16R.calls_restore)", "case": case,
+                                "model": "no override outside a call", "impl": c["tree"][0]})
+        elif tm["after"] != c["tree"][1]:
+            res["corr"].append({"what": "statement-tree-after-call (Ovr.Stmt.call vs ArrayConstraintBuilder/DistConstraintBuilder + rollback)",
+                                "case": case, "model": tm["after"], "impl": c["tree"][1]})
     mi = 0
     for scn, calls in runs:
         cnt("eval_scenarios")
